@@ -138,7 +138,11 @@ def eval_spec(spec, part, out):
         fail("to_sympy", f"raises {type(exn).__name__}", repr(exn), "TransmissionLineModel._sympy" if "container" in feats and isinstance(exn, TypeError) else None)
     if ex is not None and unique:
         run = c.generate_element_identifiers(running=True)
-        want = {f"{k}_{e.get_label() or run[e]}" for e in els for k in e.get_values()}
+        orphans = [e for e in els if e not in run]
+        if orphans:
+            # an element of the circuit (possibly inside a container's sub-circuit) that the circuit does not number: it cannot get its own variables
+            fail("to_sympy", "element without identifier", f"{len(orphans)} element(s) reachable through sub-circuits have no running identifier: {[type(e).__name__ for e in orphans][:4]}", "Connection.generate_element_identifiers")
+        want = {f"{k}_{e.get_label() or run[e]}" for e in els if e in run for k in e.get_values()}
         free = {str(s) for s in ex.free_symbols} - {"f"}
         if want - free:
             fail("to_sympy", "variable missing for a parameter", f"no variable for {sorted(want - free)}", "TransmissionLineModel._sympy" if "container" in feats else None)
